@@ -130,12 +130,11 @@ def gen_case(rnd, B):
         slack = rnd.randrange(0, inc_s) if rnd.random() < 0.4 else 0
         if K * inc_s + slack >= 86400:
             slack = 0
-        last = (s0 + sign * (K * inc_s + slack)) % 86400
-        exp = [R.hms((s0 + sign * j * inc_s) % 86400) for j in range(K + 1)]
         if K * inc_s + slack == 0:
             # FIRST == LAST between times: one element or a whole turn are both defensible; not generated
-            slack = 1
-            last = (s0 + sign) % 86400
+            K = 1
+        last = (s0 + sign * (K * inc_s + slack)) % 86400
+        exp = [R.hms((s0 + sign * j * inc_s) % 86400) for j in range(K + 1)]
         inc = "%s%d%s" % ("-" if sign < 0 else "", k, unit)
         wraps = (sign > 0 and s0 + K * inc_s >= 86400) or (sign < 0 and s0 - K * inc_s < 0)
         return {"argv": ["--", R.hms(s0), inc, R.hms(last)], "exp": exp,
@@ -203,7 +202,7 @@ def seq(ctx, shard, nshards):
     V = Viol(sub, "C15")
     rnd = random.Random(ctx.sub_seed("c15", shard))
     B = boundary()
-    for it in range(160 if not ctx.thorough else 5000):
+    for it in range(1800 if not ctx.thorough else 20000):
         case = gen_case(rnd, B)
         f = judge(ctx, case)
         sub.evaluations += 1
